@@ -1064,9 +1064,11 @@ func runC18Numbers(ctx *Ctx) {
 					if acc == big.Exact {
 						good = float32(got) == n && math.Signbit(got) == math.Signbit(float64(n))
 					} else {
-						// inexact: nearest, or (double rounding) the neighbour on the other side of x
-						other := math.Nextafter32(n, float32(math.Inf(-int(acc))))
-						good = float32(got) == n || float32(got) == other
+						// inexact: exactly Go's two-step conversion float32(x.Float64()) (C18.float_ok_iff; d18b: no longer
+						// "either neighbour") — which differs from the nearest float32 only in the double-rounding band
+						// (C18.float32StoresNearest_counterexample; counted in c18_d18b.go)
+						f64, _ := x.Float64()
+						good = float32(got) == float32(f64) && math.Signbit(got) == math.Signbit(f64)
 					}
 				} else {
 					n, _ := x.Float64()
